@@ -7,7 +7,7 @@ from .check_core import mc_states, LABS
 from .runner import Check
 
 
-IOLABS = ["int", "int_rev", "neg", "big", "str", "uni"]
+IOLABS = ["int", "zero", "int_rev", "neg", "big", "str", "uni"]
 
 
 def _decorate(g, L, known, rng, lines, grid):
